@@ -755,10 +755,29 @@ def c09_groups(tier, tag='C09'):
     # blind rotation loop and CMux step (shared with C04), decomposition contract (shared with C12)
     gs += [g for g in boot_groups(tag) if 'blindRotate.' in g.name + '.' or 'blindRotate_FFT' in g.name or 'MuxRotate' in g.name]
     gs += [g for g in c12_groups('quick', tag) if 'DecompH.l=3.Bgbit=7' in g.name or 'DecompH.l=2.Bgbit=10' in g.name]
+    # the CMux step's first operation, for EVERY exponent in [0, 2N) including 0 (a blind rotation may rotate by X^0 instead of skipping):
+    # (X^a - 1) * acc at the TLWE level against the polynomial contract, and the polynomial contract itself (shared with C14 / C11)
+    gs += [g for g in tlwe_groups(tag, tier) if '.tLweMulByXaiMinusOne.' in g.name]
+    gs += [g for g in poly_mono_groups(tag) if g.name.endswith('.torusPolynomialMulByXaiMinusOne')]
     return gs
 
 
 IO = 'tfhe_io.cpp'
+
+
+def text_layer_native(group):
+    """bounded stand-in (native, not a proof) for the text property sections, which no C05 contract reaches (std::map, getline, stod: C++ library
+    code): the real library exports and re-imports LweParams for 100 pairs of noise levels (among them every default, 2^-25, 7.18e-9, 1/3) over the
+    C++ stream transport AND the FILE transport, and the two default parameter sets; every field must come back bit-exact, re-export must give the
+    same bytes, both transports must produce the same bytes."""
+    import nreplay
+    r = nreplay.io_r(group, {}, 'C05text')
+    det = str(r.get('detail', ''))[:400].replace('\n', ' ')
+    if not r.get('confirmed') and 'satisfies the oracle' not in det:
+        raise X.ExtractionError('native text-layer oracle could not be run: %s' % det)
+    return [('text_layer.round_trip_exact_on_both_transports', not r.get('confirmed'),
+             'bounded native check of the text sections: parameter objects with 100 noise-level pairs and the default parameter sets come back bit-exact '
+             'over the C++ stream and the FILE transport' + ('' if not r.get('confirmed') else ': ' + det))]
 
 
 def stream_adapter_native(group):
@@ -925,6 +944,11 @@ def c18_all_groups(tier):
 
 def c05_groups(tier):
     gs = c17_groups(tier, 'C05') + wrapper_groups('C05')
+    ng = StaticGroup('C05.text_layer.native.bounded', text_layer_native,
+                     note='bounded: native execution of the real text layer on both transports for 100 noise-level pairs and the two default parameter sets (not a proof)')
+    ng.bounded = True
+    ng.replay = 'iotext'
+    gs.append(ng)
     sg = StaticGroup('C05.static.text_double_format', text_format_scan)
     sg.replay = 'iotext'
     gs.append(sg)
